@@ -25,13 +25,14 @@ Alphabet ==
   ({Call("labelf", 2, "", "", ad, rm, "") : ad \in Adds, rm \in Rems} \ {Call("labelf", 2, "", "", <<>>, <<>>, "")}) \cup
   ({Call("label", 2, "", "", ad, rm, "") : ad \in Adds, rm \in Rems} \ {Call("label", 2, "", "", <<>>, <<>>, "")}) \cup
   {Call("meta", 1, t, "", <<>>, <<>>, key) : t \in {"create", "last"}, key \in Keys} \cup
+  {Call("metaempty", 2, t, "", <<>>, <<>>, "k1") : t \in {"create", "last"}} \cup
   {Call("noop", 2, "", "", <<>>, <<>>, "")}
 
 SmallAlphabet ==
   {Call("comment", 2, "", "", <<>>, <<>>, ""), Call("edit", 2, "create", "", <<>>, <<>>, ""), Call("edit", 1, "last", "", <<>>, <<>>, ""), CallF("editsame", 2, "create", "", <<>>, <<>>, "", TRUE),
    Call("title", 2, "", "", <<>>, <<>>, ""), Call("titlestale", 2, "", "", <<>>, <<>>, ""), Call("status", 1, "", "closed", <<>>, <<>>, ""),
    Call("labelf", 2, "", "", <<2, 1>>, <<>>, ""), Call("labelf", 2, "", "", <<1, 1>>, <<1>>, ""), Call("label", 2, "", "", <<2, 1>>, <<1>>, ""),
-   Call("label", 2, "", "", <<>>, <<1>>, ""), Call("meta", 1, "last", "", <<>>, <<>>, "k1"), Call("meta", 1, "create", "", <<>>, <<>>, "k0"),
+   Call("label", 2, "", "", <<>>, <<1>>, ""), Call("meta", 1, "last", "", <<>>, <<>>, "k1"), Call("meta", 1, "create", "", <<>>, <<>>, "k0"), Call("metaempty", 2, "last", "", <<>>, <<>>, "k1"),
    Call("noop", 2, "", "", <<>>, <<>>, "")}
 
 Alpha == IF Small THEN SmallAlphabet ELSE Alphabet
